@@ -170,6 +170,11 @@ inductive Leaf (α : Type) where
   | b2a (osh blk str : List Int)
   | interp (ish pts : List Int) (coord : List (List Rat)) (width param : Rat)
   | gridding (osh pts : List Int) (coord : List (List Rat)) (width param : Rat)
+  /-- an operator class outside the exactly-representable set (FFT/IFFT, convolutions, wavelets, …),
+      given by the entries `E` its `_apply` denotes and the entries `E'` the class returned by its
+      `_adjoint_linop` denotes (`tag` names the class pair).  Never built by the driver protocol; used
+      by Props/C01Ext.lean to bring leaf pairs proved by other properties under the tree theorems. -/
+  | ext (tag : Nat) (osh ish : List Int) (E E' : List (Nat × Nat × α))
 
 section sem
 variable {α : Type} [Add α] [Mul α] [Zero α] [One α] (conj : α → α) (ofRat : Rat → α)
@@ -341,6 +346,7 @@ def leafSem0 : Leaf α → Option (Sem α)
   | .gridding osh pts coord w p =>
       (interpEntries true osh pts coord w p).map fun (lead, gs, ps, E) =>
         ⟨osh, lead ++ pts, updToEnt ofRat gs ps E⟩
+  | .ext _ osh ish E _ => some ⟨osh, ish, E⟩
 
 /-- what a leaf denotes (entries clipped to the matrix, see `inRangeE`) -/
 def leafSem (l : Leaf α) : Option (Sem α) := (leafSem0 conj ofRat l).map Sem.clip
@@ -473,6 +479,7 @@ def adjLeaf : Leaf α → Expr α
   | .b2a osh blk str => .leaf (.a2b osh blk str)
   | .interp ish pts coord w p => .leaf (.gridding ish pts coord w p)
   | .gridding osh pts coord w p => .leaf (.interp osh pts coord w p)
+  | .ext t osh ish E E' => .leaf (.ext t ish osh E' E)
 
 /-- `.H` -/
 def adj : Expr α → Expr α
